@@ -91,7 +91,7 @@ def parse_obs(path):
         else:
             blk['lines'].append(l)
             if t == 'TXR': blk['txr'].append(f[2])
-            elif t == 'TRIG': blk['trig'][int(f[1])] = f[2:]
+            elif t == 'TRIG': blk['trig'].setdefault(int(f[1]), []).extend(f[2:])
             elif t == 'UPD': blk['upd'] = _pairs(f[1:])
             elif t == 'COMET': blk['comet'] = dict(_pairs(f[1:]))
             elif t == 'HALT': blk['halt'] = f[1]
@@ -566,3 +566,38 @@ def history_trigs(obs, upto_height=None):
         if upto_height is not None and b['h'] > upto_height: break
         for l in b['trig'].values(): t |= set(l)
     return t
+
+
+# ---------------------------------------------------------------- reference predicates for the pure streams
+
+def parse_case_msgs(lines):
+    """message trees of one pure-stream case (lines after the header)"""
+    msgs = []; i = 0
+    while i < len(lines):
+        m, i = _read_msg(lines, i); msgs.append(m)
+    return msgs
+
+def ref_ante(case_lines):
+    """expected (staking, withdraw, commission) verdicts of the three decorators for an ANTE case: the property's
+    own statement evaluated on the message trees"""
+    f = case_lines[0].split()
+    h, dogen, floor, ceil = int(f[1]), f[2] == '1', int(f[3]), int(f[4])
+    leaves = [lf for m in parse_case_msgs(case_lines[1:]) for lf in _all_leaves(m)]
+    st = 'poa:1' if h > 1 and any(lf.kind == 'STAKING' and int(lf.args[0]) < 6 for lf in leaves) else 'pass'
+    wd = 'poa:5' if h > 1 and any(lf.kind == 'WITHDRAW' for lf in leaves) else 'pass'
+    rates = [int(lf.args[7]) for lf in leaves if lf.kind == 'CREATE'] + [int(lf.args[1]) for lf in leaves if lf.kind == 'EDIT' and lf.args[1] != 'nil']
+    gate_closed = (not dogen) and h <= 1
+    cm = 'pass' if gate_closed or all(floor <= r <= ceil for r in rates) else 'undefined:1'
+    return [st, wd, cm]
+
+def ref_validate(case_line):
+    f = case_line.split()
+    if f[0] == 'VS':
+        t, p = int(f[1]), int(f[2])
+        if t < 0: return ['sdk:7']
+        if p < PR: return ['poa:2']
+        if p >= 2**63: return ['sdk:18']
+        return ['pass']
+    if f[0] == 'VP':
+        return ['ok' if params_valid(f[1:]) else 'err']
+    return None
